@@ -295,8 +295,6 @@ func (g *mkGen) line(maxItems int, runnerSafe bool) []mkItem {
 		ws := [][]int{{32}, {32}, {32}, {}, {32, 32}, {9}, {32, 9}}[g.rnd.Intn(7)]
 		items = append(items, mkItem{K: "pfx", Name: nm, Ws: ws})
 	}
-	swallowedPrev := false // the previous item is a blank eaten by a self-closing marker
-	swallowNext := false   // the previous item is a self-closing marker that swallows
 	edgeWs := g.rnd.Intn(8) == 0
 	for len(items) < n {
 		i := len(items)
@@ -304,13 +302,10 @@ func (g *mkGen) line(maxItems int, runnerSafe bool) []mkItem {
 		if i > 0 {
 			prevK = items[i-1].K
 		}
-		wasSwallowNext := swallowNext
-		swallowNext = false
 		r := g.rnd.Intn(100)
 		switch {
 		case r < 34:
 			items = append(items, mkItem{K: "ch", C: g.textChar()})
-			swallowedPrev = false
 		case r < 50:
 			// blanks: not right after the prefix (they belong to it); at the very start
 			// only when the line is allowed whitespace at an edge and is not for the runner
@@ -318,13 +313,11 @@ func (g *mkGen) line(maxItems int, runnerSafe bool) []mkItem {
 				continue
 			}
 			items = append(items, mkItem{K: "ch", C: g.blank()})
-			swallowedPrev = wasSwallowNext
 		case r < 54:
 			if i == 0 && runnerSafe {
 				continue // \[ cannot start a Yarn line
 			}
 			items = append(items, mkItem{K: "esc", C: []int{91, 93}[g.rnd.Intn(2)]})
-			swallowedPrev = false
 		case r < 66:
 			if len(open) >= 3 {
 				continue
@@ -336,7 +329,6 @@ func (g *mkGen) line(maxItems int, runnerSafe bool) []mkItem {
 			ps, sh := g.props(nm, true)
 			items = append(items, mkItem{K: "open", Name: nm, Props: ps, Sh: sh})
 			open = append(open, nm)
-			swallowedPrev = false
 		case r < 78:
 			if len(open) == 0 {
 				continue
@@ -347,23 +339,19 @@ func (g *mkGen) line(maxItems int, runnerSafe bool) []mkItem {
 			}
 			items = append(items, mkItem{K: "close", Name: open[k]})
 			open = append(open[:k:k], open[k+1:]...)
-			swallowedPrev = false
 		case r < 80:
 			items = append(items, mkItem{K: "closeall"})
 			open = nil
-			swallowedPrev = false
 		case r < 88:
 			// rule 5 is exercised only where it is unambiguous: first item, or directly
 			// after a literal character that was not swallowed, or after the prefix
-			if !(i == 0 || (prevK == "ch" && !swallowedPrev) || prevK == "pfx") {
+			if !(i == 0 || (prevK == "ch" && !mkSwallowed(items, i-1)) || prevK == "pfx") {
 				continue
 			}
 			nm := names[g.rnd.Intn(len(names))]
 			ps, sh := g.props(nm, true)
-			trimOff := false
 			if g.rnd.Intn(4) == 0 {
 				b := g.rnd.Intn(3) == 0
-				trimOff = !b
 				p := mkProp{N: mkCps("trimwhitespace"), V: mkVal{T: "bool", B: b}}
 				at := g.rnd.Intn(len(ps) + 1)
 				if sh && at == 0 {
@@ -372,13 +360,8 @@ func (g *mkGen) line(maxItems int, runnerSafe bool) []mkItem {
 				ps = append(ps[:at:at], append([]mkProp{p}, ps[at:]...)...)
 			}
 			items = append(items, mkItem{K: "self", Name: nm, Props: ps, Sh: sh})
-			prevBlank := prevK == "ch" && (items[i-1].C == 32 || items[i-1].C == 9)
-			prevPfxBlank := prevK == "pfx" && len(items[i-1].Ws) > 0
-			swallowNext = !trimOff && (i == 0 || prevBlank || prevPfxBlank)
-			swallowedPrev = false
 		case r < 95:
 			items = append(items, g.replacement())
-			swallowedPrev = false
 		default:
 			raw := []int{}
 			for k := g.rnd.Intn(7); k > 0; k-- {
@@ -399,7 +382,6 @@ func (g *mkGen) line(maxItems int, runnerSafe bool) []mkItem {
 				open = nil
 			}
 			items = append(items, it)
-			swallowedPrev = false
 		}
 	}
 	// every marker is closed (appendix D)
@@ -420,6 +402,26 @@ func (g *mkGen) line(maxItems int, runnerSafe bool) []mkItem {
 		items = append(items, mkItem{K: "ch", C: g.blank()})
 	}
 	return items
+}
+
+func mkIsBlankItem(it mkItem) bool { return it.K == "ch" && (it.C == 32 || it.C == 9) }
+
+// mkSwallowed tells whether item i (0-based) is a blank eaten by the self-closing marker
+// before it (rule 5; the linear form Markup!SwC13 of the specification).
+func mkSwallowed(items []mkItem, i int) bool {
+	if i < 1 || !mkIsBlankItem(items[i]) || items[i-1].K != "self" {
+		return false
+	}
+	for _, p := range items[i-1].Props {
+		if mkStr(p.N) == "trimwhitespace" && p.V.T == "bool" && !p.V.B {
+			return false
+		}
+	}
+	if i == 1 {
+		return true
+	}
+	prev := items[i-2]
+	return (mkIsBlankItem(prev) && !mkSwallowed(items, i-2)) || (prev.K == "pfx" && len(prev.Ws) > 0)
 }
 
 func markupGen(m map[string]string) error {
@@ -546,6 +548,13 @@ func markupRecord(m map[string]string) error {
 			layout = mkLayout{}
 		}
 		lines[i] = layout.line(cases[i].Items)
+	}
+	if in := m["input"]; in != "" && len(lines) > 0 { // replay: the stored concrete line of the (single) case
+		var c []int
+		if err := json.Unmarshal([]byte(in), &c); err != nil {
+			return err
+		}
+		lines[0] = mkStr(c)
 	}
 	nRunner, nSkipped := 0, 0
 	for i, c := range cases {
